@@ -390,7 +390,8 @@ class PointRec:
 
 
 class Execution:
-    def __init__(self, explorer, scenario, prefix, root):
+    def __init__(self, explorer, scenario, prefix, root, director=None):
+        self.director = director  # optional callable(exec, choices) -> index: drives the schedule instead of the prefix (model-trace replay)
         self.E = explorer
         self.sc = scenario
         self.prefix = prefix
@@ -516,7 +517,11 @@ class Execution:
                     choices.append((p.idx, "kill"))
                     costs.append((0, 1, 0))
             key = self.state_key(running, tuple(budget)) if self.E.use_keys else None
-            if i < len(self.prefix):
+            if self.director is not None:
+                c = self.director(self, choices)
+                if c is None:
+                    break  # the director has no further step: stop here (remaining processes stay parked)
+            elif i < len(self.prefix):
                 c = self.prefix[i]
                 if c >= len(choices):
                     raise Divergence(f"prefix choice {c} out of range at point {i}: {choices}")
@@ -555,6 +560,11 @@ class Execution:
             self.main_sem.acquire()  # until p parks at its next point or finishes
             i += 1
             self._state_invariants()
+        for p in self.procs:
+            if not p.finished:  # execution stopped early (director): unwind the parked thread without effects
+                p.dead = True
+                p.go.release()
+                self.main_sem.acquire()
         for p in self.procs:
             p.thread.join(timeout=5)
         self._terminal_invariants()
@@ -727,14 +737,14 @@ class Explorer:
         shutil.rmtree(self.base, ignore_errors=True)
 
     # -- single execution -----------------------------------------------------------------------------
-    def execute(self, scenario, prefix):
+    def execute(self, scenario, prefix, director=None):
         self.counter += 1
         root = os.path.join(self.base, f"x{self.counter}")
         _real["mkdir"](root)
         INTERPOSER.root = root
         self.stub_time.t = 0.0
         try:
-            ex = Execution(self, scenario, list(prefix), root).run()
+            ex = Execution(self, scenario, list(prefix), root, director=director).run()
         finally:
             INTERPOSER.root = None
             sys.stdout = self.saved["stdout"]
